@@ -3,23 +3,23 @@ CONSTANTS
   Ents = {1, 2, 3}
   ReqTimeouts = {0, 2}
   WishFixed = {0}
-  WishServer = TRUE
+  WishServer = FALSE
   Intervals = {3}
   Delays = {1}
   WishItems = 1
   DefaultIval = 9
-  EnvOps = {"search", "cmd", "wlmsg", "remove", "reply"}
+  EnvOps = {"searchrm", "sheld", "remove", "cmd", "recmd"}
   MaxOps = 3
   MaxTime = 3
   MaxTasks = 4
-  MaxTicket = 3
+  MaxTicket = 1
   UnsetGuard = TRUE
   RemoveCancels = TRUE
   SharedGen = TRUE
   EmitBeforeClose = TRUE
   MaxHeld = 0
-  MaxSHeld = 0
-  StartBeforeEmit = TRUE
+  MaxSHeld = 1
+  StartBeforeEmit = FALSE
   CmdFreshTicket = TRUE
 INVARIANT TypeOK
 INVARIANT DistinctTickets
